@@ -12,15 +12,20 @@ vars == <<l>>
 Init == l = 1
 Judge(ok, why) == IF ok THEN TRUE ELSE PrintT(<<"BAD", l, why>>)
 
+\* the observation as a result record; a result that is not the Abs one but exactly the one of the engine's KNOWN deviations
+\* (MustacheOps!KnownDevs) is reported as <<"OBS", name, line>> instead of BAD
 EvRender == /\ IsEv("Render")
             /\ Judge(\A i \in 1..Len(Ev.lex) : Ev.lex[i] \in LexNames, "set-up: unknown lexeme")
             /\ Judge(Ev.tmpl = Text(Ev.lex), "set-up: template text is not the text of its lexemes")
-            /\ LET a == Eval(Ev.lex, Ev.res, {}) IN
-               /\ Judge(Ev.exc # "other", "only MustacheError may escape render")
-               /\ Judge(Ev.ok = ~a.err, IF a.err THEN "M4/M5 malformed template, unknown partial or excessive depth must be refused"
-                                                  ELSE "well-formed template refused")
-               /\ Judge(Ev.ok => Ev.out = a.out, "M1-M3, M6 rendered text")
-               /\ Judge(Ev.calls = a.calls, "M5 partials resolved only when reached, in order")
+            /\ LET a == Eval(Ev.lex, Ev.res, {})
+                   o == [err |-> ~Ev.ok, out |-> Ev.out, calls |-> Ev.calls]
+               IN /\ Judge(Ev.exc # "other", "only MustacheError may escape render")
+                  /\ IF o = a THEN TRUE
+                     ELSE IF o = Eval(Ev.lex, Ev.res, KnownDevs) THEN PrintT(<<"OBS", "Dev_CrlfBlankIndented", l>>)
+                     ELSE /\ Judge(Ev.ok = ~a.err, IF a.err THEN "M4/M5 malformed template, unknown partial or excessive depth must be refused"
+                                                             ELSE "well-formed template refused")
+                          /\ Judge(Ev.ok => Ev.out = a.out, "M1-M3, M6 rendered text")
+                          /\ Judge(Ev.calls = a.calls, "M5 partials resolved only when reached, in order")
             /\ Judge(~Ev.mut /\ Ev.again, "M7 data untouched, render deterministic")
 EvCrashed == (IsEv("Crashed") \/ IsEv("Hung")) /\ Judge(FALSE, "crash or hang")
 EvReset == IsEv("Reset")
